@@ -8,9 +8,11 @@ hard / symbolic links, pre-existing destination files); the real command is also
 independent set-theoretic oracle (C14's Spec listing -> expected destination / source); one real
 recording is copied with a window and read back with DigitalRFReader on both sides."""
 import datetime
+import errno
 import json
 import os
 import shutil
+import tempfile
 
 import common
 from props import listing_lib as L
@@ -189,6 +191,20 @@ def enc_store(s):
     return out
 
 
+def second_filesystem(top):
+    """a writable directory on a device other than the scratch directory's, or None"""
+    if os.environ.get("DRF_C18_NO_SECOND_FS"):
+        return None
+    dev = os.stat(top).st_dev
+    for p in ("/dev/shm", "/run/shm", "/tmp", "/var/tmp"):
+        try:
+            if os.stat(p).st_dev != dev and os.access(p, os.W_OK):
+                return p
+        except OSError:
+            pass
+    return None
+
+
 def run(res):
     common.use_impl()
     import digital_rf
@@ -281,9 +297,18 @@ def run(res):
             cases.append(model_case(m, src_ct, dsub))
     rows = common.run_model("listing", cases)
     # ---- implementation + oracle
+    other_fs = second_filesystem(top)
+    res.extra["second_filesystem"] = other_fs or "none found: EXDEV injected into os.rename for renames from src to dest"
     for mi, m in enumerate(metas):
         work = os.path.join(top, "w%d" % mi)
         src, dest = os.path.join(work, "src"), os.path.join(work, "dest")
+        # every fifth cp/mv/ln --symbolic has its destination on another file system (a rename from src to
+        # dest fails with EXDEV there; hard links are impossible and left out)
+        cross = mi % 5 == 1 and m["op"] != "ln"
+        xwork = None
+        if cross and other_fs:
+            xwork = tempfile.mkdtemp(prefix="c18x-", dir=other_fs)
+            dest = os.path.join(xwork, "dest")
         write_ctree(src, m["ct"])
         if m["dmode"] != "missing":
             os.makedirs(dest)
@@ -323,15 +348,30 @@ def run(res):
         src_before = store_of(m["ct"])
         src_ino = {p: os.lstat(os.path.join(src, p)).st_ino for p in src_before}
         err = None
+        inject = cross and not other_fs
+        if cross:
+            res.count("destination-on-another-filesystem:" + m["op"])
+        real_rename = os.rename
+        if inject:
+            def exdev_rename(a, b, *ar, **kw):
+                ra, rb = os.path.realpath(a), os.path.realpath(b)
+                if ra.startswith(os.path.realpath(src) + os.sep) != rb.startswith(os.path.realpath(src) + os.sep):
+                    raise OSError(errno.EXDEV, "Invalid cross-device link", a)
+                return real_rename(a, b, *ar, **kw)
+            os.rename = exdev_rename
         try:
             drf_command.main(argv)
         except SystemExit as e:
             err = "SystemExit(%s)" % e.code
         except Exception as e:  # noqa
             err = type(e).__name__
+        finally:
+            os.rename = real_rename
         sfiles, sdirs = snapshot(src)
         dfiles, ddirs = snapshot(dest)
         inp = {"argv": argv[:1] + ["<src>", "<dest>"] + argv[3:], "tree": m["ct"], "dest_before": m["dst"]}
+        if cross:
+            inp["dest_on_another_filesystem"] = other_fs or "EXDEV injected"
         res.case((m["tname"], json.dumps(m["ct"], sort_keys=True), tuple(inp["argv"]), json.dumps(m["dst"], sort_keys=True)),
                  nontrivial=(dfiles.keys() != set(m["dst"].keys())) or err is not None)
         res.count("op:" + m["op"])
@@ -425,6 +465,8 @@ def run(res):
                         res.violation("directories-differ", "destination directories are not exactly those needed", inp,
                                       sorted(need), sorted(ddirs))
         shutil.rmtree(work, ignore_errors=True)
+        if xwork:
+            shutil.rmtree(xwork, ignore_errors=True)
         if mi < 3:
             res.sample({"argv": inp["argv"], "transferred": sorted(set(impl_dst) - set(m["dst"]))[:6], "error": err})
     reader_leg(res, top)
@@ -477,6 +519,11 @@ def replay(res, rp):
     i = rp["input"]
     work = common.scratch_dir()
     src, dest = os.path.join(work, "src"), os.path.join(work, "dest")
+    xwork = None
+    if i.get("dest_on_another_filesystem") and second_filesystem(work):
+        xwork = tempfile.mkdtemp(prefix="c18x-", dir=second_filesystem(work))
+        dest = os.path.join(xwork, "dest")
+        print("destination on another file system:", dest)
     write_ctree(src, i["tree"])
     for p, c in (i.get("dest_before") or {}).items():
         L.touch(os.path.join(dest, p))
@@ -490,5 +537,8 @@ def replay(res, rp):
         err = type(e).__name__
     print("argv", argv, "error", err)
     print("dest", {p: v[0] for p, v in snapshot(dest)[0].items()})
+    print("src", {p: v[0] for p, v in snapshot(src)[0].items()})
     print("expected", rp.get("expected"))
+    if xwork:
+        shutil.rmtree(xwork, ignore_errors=True)
     return 0
